@@ -67,7 +67,8 @@ class OpAdd(Op):
         target = self.path.parts[-1]
         if isinstance(parent, MutableSequence):
             if obj is UNDEFINED:
-                if target == "-":
+                # RFC 6902: "-" or an index equal to the array's length appends.
+                if target == "-" or target == len(parent):
                     parent.append(self.value)
                 else:
                     raise JSONPatchError("index out of range")
